@@ -58,7 +58,7 @@ var hdrBoundary8 = []int64{0, 0, 0, 1, -1, 255, 256, 1<<31 - 1, 1 << 31, -(1 << 
 var hdrBoundary4 = []int64{0, 0, 0, 1, -1, 127, 128, 1<<31 - 1, -(1 << 31)}
 
 // boundaryHeader puts the common-header fields of o on boundary values; timeZero forces time 0.
-func boundaryHeader(r *vh.Rng, o *liveObj, timeZero bool) {
+func boundaryHeader(r *vh.Rng, o *liveObj, timeZero bool) (getterProblem string) {
 	tm := r.Pick64(hdrBoundary8)
 	if r.Chance(25) {
 		tm = genInt(r, 8)
@@ -85,6 +85,14 @@ func boundaryHeader(r *vh.Rng, o *liveObj, timeZero bool) {
 	o.p.SetONODE(int32(onode))
 	o.p.SetTime(tm)
 	o.log = append(o.log, fmt.Sprintf("SetPCODE(%d) SetOID(%d) SetOKIND(%d) SetONODE(%d) SetTime(%d)", pc, oid, okind, onode, tm))
+	// the public getters of the common header (makeData reads the project code through GetPCODE)
+	if g := o.p.GetTime(); g != tm {
+		return fmt.Sprintf("GetTime() = %d after SetTime(%d)", g, tm)
+	}
+	if g := o.p.GetPCODE(); g != pc {
+		return fmt.Sprintf("GetPCODE() = %d after SetPCODE(%d)", g, pc)
+	}
+	return ""
 }
 
 func queuePhase(env *vh.Env, rep *vh.Report, r *vh.Rng) {
@@ -150,13 +158,18 @@ func queuePhase(env *vh.Env, rep *vh.Report, r *vh.Rng) {
 						}
 					}
 				}
-				vh.Guard(func() { boundaryHeader(r, o, (i+round+ri)%3 == 0) })
+				gp := ""
+				vh.Guard(func() { gp = boundaryHeader(r, o, (i+round+ri)%3 == 0) })
+				rep.Count("header-getters-compared-with-setters")
+				if gp != "" {
+					rep.Fail("property", "AbstractPack:getter-disagrees-with-setter", o.goName+": "+gp, map[string]interface{}{"what_was_done_to_the_object": o.log, "seed": env.Seed})
+				}
 				perSend[i] = (i+round)%2 == 0
 				api[i] = apis[(i+round+ri)%3]
 			}
 			// the sentinel: a fresh object, queued last, never looked at again after it was queued
 			var sentinel *liveObj
-			vh.Guard(func() { sentinel = newLive(r, 5); boundaryHeader(r, sentinel, round%2 == 0) })
+			vh.Guard(func() { sentinel = newLive(r, 5); _ = boundaryHeader(r, sentinel, round%2 == 0) })
 			if sentinel == nil {
 				vh.Die("queue stage: cannot build the sentinel pack")
 			}
@@ -242,6 +255,17 @@ func queuePhase(env *vh.Env, rep *vh.Report, r *vh.Rng) {
 					}
 				}
 			default:
+				if round == 0 {
+					// the public Connect: the connection exists before anything is queued
+					var cerr error
+					g := vh.GuardTimeout(120*time.Second, func() { cerr = client.Connect() })
+					rep.Count("queued:explicit-Connect")
+					if !g.OK() || cerr != nil {
+						rep.Fail("property", "OneWayTcpClient.queued:"+route+":Connect-"+g.String(), fmt.Sprintf("Connect to a loopback listener failed: %v %v", vh.Clip(g.Panic, 200), cerr), map[string]interface{}{"route": route, "seed": env.Seed})
+						abort = true
+						break
+					}
+				}
 				if !enqueue() {
 					abort = true
 				}
@@ -283,6 +307,15 @@ func queuePhase(env *vh.Env, rep *vh.Report, r *vh.Rng) {
 				case o := <-sacDone:
 					if !o.OK() || sacErr != nil {
 						rep.Fail("property", "OneWayTcpClient.queued:"+route+":SendAndClear-"+o.String(), fmt.Sprintf("SendAndClear failed: %v %v", vh.Clip(o.Panic, 200), sacErr), map[string]interface{}{"route": route, "seed": env.Seed})
+					} else {
+						// SendAndClear flushed: the public Flush finds nothing buffered (and puts nothing on the wire: trailing-bytes check)
+						nb, ferr := -1, error(nil)
+						g := vh.GuardTimeout(120*time.Second, func() { nb, ferr = client.Flush() })
+						rep.Count("queued:Flush-after-SendAndClear")
+						if !g.OK() || ferr != nil || nb != 0 {
+							rep.Fail("property", "OneWayTcpClient.queued:"+route+":Flush-after-SendAndClear", fmt.Sprintf("Flush() after SendAndClear returned (%d, %v) %s: every frame had arrived, nothing can be buffered", nb, ferr, g.String()),
+								map[string]interface{}{"route": route, "round": round, "seed": env.Seed})
+						}
 					}
 				case <-time.After(3 * time.Minute):
 					rep.Fail("property", "OneWayTcpClient.queued:"+route+":SendAndClear-timeout", "SendAndClear did not return although every frame has arrived", map[string]interface{}{"route": route, "seed": env.Seed})
